@@ -598,6 +598,8 @@ pub struct Snap {
     pub dropped: Vec<(usize, bool)>,
     pub engine_errors: Vec<String>,
     pub scripts_empty: bool,
+    /// injected accept errors not yet consumed, per listener (read off the injection queue itself)
+    pub inject_left: Vec<usize>,
     pub finish_log: Vec<(usize, bool)>,
 }
 
@@ -1349,6 +1351,11 @@ impl Sim {
                 && sh.create_script.values().all(|q| q.is_empty());
         }
         e.svc_seen += s.svc_new.len();
+        s.inject_left = e
+            .listeners
+            .iter()
+            .map(|l| INJECT.with(|q| q.borrow().iter().filter(|(k, _)| *k == l.key).count()))
+            .collect();
         s.dropped = e.dropped.clone();
         s.engine_errors = e.engine_errors.clone();
         s.replaced = e.replaced.clone();
